@@ -120,6 +120,25 @@ def gen_input(rng, family, dim, periodic, nmax=40):
         for _ in range(n):
             gens.append([clampbox(c[a] + diam * width[a] * (rng.unit() - 0.5), anchor[a], width[a]) for a in range(3)])
         gens += [rnd_pt() for _ in range(rng.range(0, 6))]
+    elif family == "manyfaces":
+        # one generator surrounded by many generators at nearly equal distance: a cell with > 64 planes
+        m = rng.range(70, 130) if dim == 3 else rng.range(40, 90)
+        ctr = [inp["anchor"][k] + 0.5 * inp["width"][k] for k in range(3)]
+        rad = 0.3 * min(inp["width"][:dim])
+        dirs = []
+        for i in range(m):
+            if dim == 3:
+                z = 1.0 - 2.0 * (i + 0.5) / m
+                phi = i * 2.399963229728653
+                r = math.sqrt(max(0.0, 1 - z * z))
+                dirs.append((r * math.cos(phi), r * math.sin(phi), z))
+            elif dim == 2:
+                phi = 2 * math.pi * (i + 0.37 * rng.unit()) / m
+                dirs.append((math.cos(phi), math.sin(phi), 0.0))
+            else:
+                dirs.append((1.0 if i % 2 else -1.0, 0.0, 0.0))
+        rng.shuffle(dirs)
+        gens = [ctr] + [[ctr[c] + rad * (1.0 + 1e-6 * rank + (0.5 * rank / m if dim == 1 else 0.0)) * d[c] for c in range(3)] for rank, d in enumerate(dirs)]
     elif family == "aniso":
         # strongly anisotropic and/or offset boxes.  Conditioning is kept within what "up to rounding" can
         # quantify (DESIGN 3.4): aspect <= 1e3; offset <= 1e3 widths; in 1D/2D |coordinates| <= 1e9 because
@@ -151,7 +170,7 @@ def gen_input(rng, family, dim, periodic, nmax=40):
     return dedupe(inp)
 
 
-FAMILIES = ["uniform", "tiny", "lattice", "onwalls", "cospherical", "coplanar", "cluster", "aniso"]
+FAMILIES = ["uniform", "tiny", "lattice", "onwalls", "cospherical", "coplanar", "cluster", "aniso", "manyfaces"]
 
 
 def gen_suite(rng, count, families=None, nmax=40, dims=(1, 2, 3), periodics=(False, True)):
